@@ -78,6 +78,9 @@ Mk(i, sk, pr) ==
             [] pr = "two"     -> [base EXCEPT !.outs = <<O(i), P(i)>>]
             [] pr = "iout"    -> [base EXCEPT !.iouts = <<P(i)>>]
             [] pr = "rsp"     -> [base EXCEPT !.rsp = TRUE]
+            \* both response-file bindings are there, but the path evaluates to nothing for this statement (a rule shared
+            \* by statements with and without a response file): nothing is written, the content still is part of the command
+            [] pr = "rspnone" -> [rspnone |-> TRUE] @@ [base EXCEPT !.rsp = TRUE]
             [] pr = "depfile" -> [base EXCEPT !.deps = "depfile", !.hdrs = <<hsrc>>]
             [] pr = "gcc"     -> [base EXCEPT !.deps = "gcc", !.hdrs = <<hsrc>>]
             [] pr = "msvc"    -> [base EXCEPT !.deps = "msvc", !.hdrs = <<hsrc>>]
@@ -195,8 +198,17 @@ FlipHists(gr) ==
 FlipGraphs ==
   UNION { { Graph(<<Mk(1, C(<<"s1">>), "gen"), Mk(2, C(<<"s2">>), p2), Mk(3, C(<<"o2">>), "plain")>>),
             Graph(<<Mk(1, C(<<"s2">>), p2), Mk(2, C(<<"s1">>), "gen"), Mk(3, C(<<"o1">>), "plain")>>) } : p2 \in {"plain", "rsp", "restat", "two"} }
+\* a statement whose rule binds rspfile / rspfile_content while the path evaluates to nothing for it: built, built again
+\* (the record written by the first build has to match what the second scan computes), content and source changes
+RspNoneGraphs == { Graph(<<Mk(1, C(<<"s1">>), "rspnone"), Mk(2, C(<<"o1">>), p2)>>) : p2 \in {"plain", "rsp", "rspnone"} }
+RspNoneHists(gr) ==
+  { <<Build(Roots(gr), 1, 1), Build(Roots(gr), 1, 1)>>,
+    <<Build(Roots(gr), 2, 1), [op |-> "rspver", s |-> 1], Build(Roots(gr), 2, 1), Build(Roots(gr), 2, 1)>>,
+    <<Build(Roots(gr), 1, 1), [op |-> "edit", f |-> "s1"], Build(Roots(gr), 1, 1), Build(Roots(gr), 1, 1)>>,
+    <<Build(Roots(gr), 1, 1), [op |-> "rspver", s |-> 1], Build(Roots(gr), 1, 1), [op |-> "verback", s |-> 1], Build(Roots(gr), 1, 1), Build(Roots(gr), 1, 1)>> }
 FamFlip(K, CH) ==
   UNION { {Scn(gr, h) : h \in FlipHists(gr)} : gr \in FlipGraphs }
+  \cup UNION { {Scn(gr, h) : h \in RspNoneHists(gr)} : gr \in RspNoneGraphs }
   \cup
   UNION { UNION { {Scn(gr, h) : h \in Pick(CH, FlipHists(gr))} :
                   gr \in {x \in GraphsS(sh, {"plain", "restat", "gen", "rsp", "gcc", "two"}, 3 * K) : GenStmts(x) # {}} \cup GraphsS(sh, {"plain", "restat", "rsp"}, 1) } :
@@ -483,6 +495,12 @@ DynDeep ==
 FamPoolsDyn(K, CH) ==
   UNION { {Scn(WithPools(gr, pa), <<BX(SetToSeq(AllOutsG(gr)), j, 1, [fail |-> <<>>]), Build(SetToSeq(AllOutsG(gr)), 2, 1)>>) :
               j \in {1, 2, 3}, pa \in RandomSubset(K + 1, [1..Len(gr.stmts) -> {"", "p1", "p2", "console"}])} : gr \in DynGraphs }
+\* a command fails while the failure budget lasts, and a dyndep file loaded later in the same build names its output as a
+\* discovered input: the failed statement is met again by the walk over the new inputs (C06: at most once; C05: contained)
+FamDynFail(K, CH) ==
+  UNION { {Scn(gr, <<BX(SetToSeq(AllOutsG(gr)), jk[1], jk[2], [fail |-> FailRec({i}, 1, FALSE)]), Build(SetToSeq(AllOutsG(gr)), 2, 1)>>) :
+              jk \in {<<2, 0>>, <<3, 2>>, <<3, 0>>}, i \in {x \in Cmds(gr) : gr.stmts[x].mkdd = "" /\ gr.stmts[x].dd = ""}} :
+          gr \in {x \in DynGraphs : \E q \in DOMAIN x.stmts : x.stmts[q].mkdd # ""} }
 \* restat pruning across a dyndep file that is still pending: a restat statement leaves its output alone, the producer of
 \* the dyndep file and the statement bound to that file are out of date only through that output
 DynRestatGraphs ==
@@ -795,7 +813,7 @@ Family(name) ==
     [] name = "cyc" -> FamCyc(ParK, ParCH)
     [] name = "twin" -> FamTwin(ParK, ParCH)
     [] name = "dyn" -> FamDyn(ParK, ParCH)
-    [] name = "pools" -> FamPools(ParK, ParCH) \cup FamPoolsDyn(ParK, ParCH)
+    [] name = "pools" -> FamPools(ParK, ParCH) \cup FamPoolsDyn(ParK, ParCH) \cup FamDynFail(ParK, ParCH)
     [] name = "jobs" -> FamJobs(ParK, ParCH)
     [] name = "intr" -> FamIntr(ParK, ParCH)
     [] name = "crash" -> FamCrash(ParK, ParCH)
